@@ -102,6 +102,15 @@ def h_replace_with(ctx):
     ta = w.term(a)
     rwp = ctx.fn(trl.Automaton.replace_with_primed)
     rwu = ctx.fn(trl.Automaton.replace_with_unprimed)
+    # the identifiers as a list (documented example) and as any other iterable,
+    # one-shot iterators included: the library reads `vrs` once
+    forms = (list, tuple, iter, set, lambda q: (x for x in q), lambda q: dict.fromkeys(q).keys())
+    n = 0
+
+    def arg(vrs):
+        nonlocal n
+        n += 1
+        return forms[n % len(forms)](vrs)
     for k in range(1, len(flex) + 1):
         for vrs in itertools.combinations(flex, k):
             vrs = list(vrs)
@@ -110,17 +119,17 @@ def h_replace_with(ctx):
             u = w.pred(f'U_{"_".join(vrs)}',
                        [b for b in w.groups(w.ACTION) if b not in pbits])
             tu = w.term(u)
-            r = ctx.call(rwp, aut, vrs, u, label='replace_with_primed')
+            r = ctx.call(rwp, aut, arg(vrs), u, label='replace_with_primed')
             want = spec.subst(tu, [(w.z(b), w.z(bp)) for b, bp in zip(bits, pbits)])
             w.oblige(f'replace_with_primed({vrs}).post: exactly the listed variables are renamed to their primed copies',
                      spec.equiv(w, w.term(r), want))
             v = w.pred(f'V_{"_".join(vrs)}',
                        [b for b in w.groups(w.ACTION) if b not in bits])
-            r2 = ctx.call(rwu, aut, vrs, v, label='replace_with_unprimed')
+            r2 = ctx.call(rwu, aut, arg(vrs), v, label='replace_with_unprimed')
             want2 = spec.subst(w.term(v), [(w.z(bp), w.z(b)) for b, bp in zip(bits, pbits)])
             w.oblige(f'replace_with_unprimed({vrs}).post: exactly the listed primed variables are renamed to unprimed',
                      spec.equiv(w, w.term(r2), want2))
-            r3 = ctx.call(rwu, aut, vrs, r, label='replace_with_unprimed')
+            r3 = ctx.call(rwu, aut, arg(vrs), r, label='replace_with_unprimed')
             w.oblige(f'replace_with_unprimed(replace_with_primed(u)) == u   ({vrs})',
                      spec.equiv(w, w.term(r3), tu))
     w.canary('replace_with canary', spec.equiv(w, w.term(r), tu))
@@ -297,6 +306,12 @@ def h_hint_formulas(ctx):
     s = aut.type_hint_for(['x', 'b'])
     w.oblige(f'type_hint_for: denotes {lo} <= x <= {hi}',
              w.valid_goal(den.formula(s) == inr))
+    s = aut.type_hint_for(["x'", 'b'])
+    w.oblige(f'type_hint_for(primed identifier): denotes {lo} <= x\' <= {hi} (documented: `vrs` may contain primed or unprimed identifiers)',
+             w.valid_goal(den.formula(s) == inrp))
+    s = aut.type_hint_for(['x', "x'", "b'"])
+    w.oblige('type_hint_for(x, x\'): denotes the hint on both',
+             w.valid_goal(den.formula(s) == z3.And(inr, inrp)))
     s = aut.type_action_for(['x', 'b'])
     w.oblige('type_action_for: denotes the hint on x and on x\'',
              w.valid_goal(den.formula(s) == z3.And(inr, inrp)))
